@@ -31,6 +31,13 @@ Theorem C19_bytevec_short : forall n s c,
   c <= len s -> len s < c + n -> bytevec n s c = PErr EEndOfBuffer c.
 Proof. exact bytevec_short. Qed.
 
+(* ByteVecP with ANY usize length (usize::MAX included): too long => EndOfBuffer with the cursor unmoved *)
+Theorem C19_bytevec_any_length : forall n s c,
+  c <= len s ->
+  bytevecN n s c = if (N.of_nat (len s - c) <? n)%N then PErr EEndOfBuffer c
+                   else POk (sub s c (c + N.to_nat n), c, c + N.to_nat n) (c + N.to_nat n).
+Proof. exact bytevecN_spec. Qed.
+
 (* no assertion / overflow is reachable *)
 Theorem C19_no_panic : forall k e s c, wfb s -> uN k e s c <> PPanic /\ uN k e s c <> PFuel.
 Proof. exact uN_no_panic. Qed.
@@ -42,3 +49,4 @@ Print Assumptions C19_int_short.
 Print Assumptions C19_bytevec_ok.
 Print Assumptions C19_bytevec_short.
 Print Assumptions C19_no_panic.
+Print Assumptions C19_bytevec_any_length.
